@@ -152,7 +152,11 @@ def _c17_instances():
         no_cover = []
         for kind, term in (("path", ["has_path"]), ("min", ["rule_min_costs"]), ("max", ["rule_max_costs", "has_path"]),
                            ("term", ["rule_min_costs", "rule_max_costs", "has_path"])):
-            out.append(I(f"c17::c17_{kind}_{tag}", tier, bounds=b, termination=term, shape=tag, kind=kind))
+            t = tier
+            if kind == "path" and sh["domain"] == "g34":
+                t = "thorough"  # 16 has_path calls per run: 6 min / 8 GB
+            out.append(I(f"c17::c17_{kind}_{tag}", t, bounds=b, termination=term, shape=tag, kind=kind,
+                         est_gb=6 if sh["domain"] == "g34" else 4))
     # FIRST / nullable: Vob-based code, affordable only at a few small shapes (15-20 GB each): thorough tier
     for tag, b in (("a2_b1_c0", "3 user rules, productions len [2,1,0]"), ("a3_b0", "2 user rules, len [3,0]"),
                    ("a21_b0", "2 user rules, len [2,1 | 0]"), ("a2_b2", "2 user rules, len [2 | 2]")):
